@@ -656,14 +656,18 @@ def gen_ops(rng, cfg, seed_tag):
         arrays.append((hh, n))
         return hh
 
-    def derive(src):
+    def derive(src, rec_sr=None, max_window=256):
         hh = h()
         if rng.random() < 0.4:
-            ops.append({"op": "resample", "src": src, "h": hh,
-                        "target": rng.choice([4000, 8000, 22050, 3, 96000, 11, 44100, 6000])})
+            if rec_sr and rng.random() < 0.7:
+                ratio = rng.choice([0.5, 2.0, 1 / 3, 1.5, 0.9, 1.1, 0.25, 3.0])
+                target = max(1, int(rec_sr * ratio))
+            else:
+                target = rng.choice([4000, 8000, 22050, 3, 96000, 11, 44100, 6000])
+            ops.append({"op": "resample", "src": src, "h": hh, "target": target})
             arrays.append((hh, None))
         else:
-            w = rng.choice([8, 16, 32, 64, 100, 256])
+            w = rng.choice([w for w in [4, 8, 16, 32, 64, 100, 256] if w <= max_window] or [4])
             whole = rng.random() < 0.5
             window = w if whole else w + rng.choice([0.5, 0.25, 0.9, 0.001])
             hop = rng.choice([1, 2, w // 4 or 1, w // 2, w])
@@ -711,13 +715,28 @@ def gen_ops(rng, cfg, seed_tag):
             if rng.random() < 0.5:
                 recording(f)
         elif pat == "derived":
-            if rng.random() < 0.5:
-                src = load_clip(r)
+            f2, rec_sr = recs[r]
+            frames = files[f2][1]
+            length = rng.choice([24, 60, 150, 400])
+            if rng.random() < 0.7:
+                # a window of known length that often crosses the end of file
+                k0 = max(0, frames - rng.randint(0, length + length // 2))
+                off = rng.choice([0.0, 0.0, 0.5, 0.25])
+                hh = h()
+                n = node()
+                ops.append({"op": "load_clip", "r": r,
+                            "start": (k0 + off) / rec_sr,
+                            "end": (k0 + off + length) / rec_sr,
+                            "node": n, "h": hh, "fault": None,
+                            "audio_as": rng.choice(["str", "path"])})
+                arrays.append((hh, n))
+                src = hh
             else:
                 src = load_recording(r)
-            d = derive(src)
-            if rng.random() < 0.4:
-                derive(d)
+                length = max(frames, 4)
+            d = derive(src, rec_sr, max_window=max(4, length // 2))
+            if rng.random() < 0.5:
+                derive(d, None, max_window=max(4, length // 4))
         elif pat == "fault" and cfg["faults"]:
             load_clip(r, rng.choice(["sf_open_error", "sf_read_error"]))
             load_clip(r)
